@@ -355,6 +355,7 @@ def shards(tier, seed):
     out = [('lower', tier, seed, i, sp[i:i + CHUNK]) for i in range(0, len(sp), CHUNK)]
     n_arith = 96 if tier == 'quick' else 600
     out += [('arith', tier, seed, i) for i in range(n_arith)]
+    out += [('constset', tier, seed, i) for i in range(12 if tier == 'quick' else 60)]
     return out
 
 
@@ -923,6 +924,89 @@ def _exact_neg_zero_from_unsigned_zero(op, t, models):
     return False
 
 
+# ---------------------------------------------------------------------------
+# constant-set layer: a rounding of a statically known value set (with / without a member -0.0)
+
+def constset_targets():
+    """Targets with a single zero, with controls that keep a -0."""
+    out = []
+    for signed, scale, nb in ((True, 0, 8), (True, 0, 16), (False, 0, 8), (True, -2, 6), (True, -1, 3)):
+        out.append(('fixed', (signed, scale, nb), {}))
+    for nmin in (-1, -3, -9):
+        out.append(('mpfixed', (nmin,), {'enable_neg_zero': False}))
+        out.append(('mpfixed', (nmin,), {}))
+        out.append(('mpbfixed', (nmin, 12 * pow2(nmin + 1)), {'overflow': 'SATURATE', 'enable_neg_zero': False}))
+        out.append(('mpbfixed', (nmin, 12 * pow2(nmin + 1)), {'overflow': 'SATURATE'}))
+    out += [('smfixed', (-2, 6), {}), ('ieee', (5, 16), {}), ('mps', (8, -20), {}), ('efloat', (4, 8, False, 2, 0), {}),
+            ('efloat', (4, 8, False, 1, 0), {})]
+    return out
+
+
+def constset_case(res, shape, op, rewrite, b_spec, where):
+    """elim_round on `with B: y = round(z)` / insert_round(B) on `with fp.REAL: y = round(z)` for z in a constant set.
+    A wrong identity claim for the *known* member -0.0 is its own root cause (set membership), not the open finding
+    about -0 derived by exact operators (F15)."""
+    try:
+        b_ctx, b_m = F.build(b_spec)
+    except (ValueError, TypeError):
+        res.skip('constset: constructor rejected')
+        return
+    src = G.constset_src(shape, op, 'fp.REAL' if rewrite == 'ir' else 'B')
+    base = {'group': 'constset', 'shape': shape, 'op': op, 'rewrite': rewrite, 'B': G.enc_spec(b_spec), 'where': where}
+    mod = load_module(src, extra_globals={'B': b_ctx})
+    name = LONG[rewrite]
+    try:
+        res.count('constset-programs')
+        try:
+            g = apply_step(mod.q, rewrite, where, b_ctx)
+        except Refused:
+            res.cls('constset:declined')
+            return
+        except Inconsistent as e:
+            res.case()
+            res.fail(f'{name}/sites-listing/{e.what}', dict(base, args=[]), expected='sites() and the rewrite agree', got=e.detail or e.what)
+            return
+        except _Timeout:
+            res.skip('transform-timeout-inconclusive')
+            return
+        except Exception as e:
+            res.case()
+            kind = 'format-infer-crash' if _in_format_infer(e) else 'transform-crash'
+            res.fail(f'{name}/{kind}/{type(e).__name__}', dict(base, args=[]), expected='a rewritten program or a refusal',
+                     got=f'{type(e).__name__}: {str(e)[:300]}')
+            return
+        res.cls('constset:acted')
+        has_negzero = shape.startswith('negzero') or shape == 'three-members'
+        if has_negzero:
+            res.cls('constset:acted-with-known-negzero-member')
+        for args in (((True,), (False,)) if G.CONSTSETS[shape][1] else ((),)):
+            o0 = observe(mod.q, args)
+            o1 = observe(g, args)
+            res.case()
+            res.cls('constset')
+            res.nontrivial()
+            res.maybe_sample(dict(base, args=list(args)), nt=True)
+            if o0[:2] == o1[:2]:
+                continue
+            why = identity_why(b_m, o0, o1)
+            if why == 'sign-of-zero' and has_negzero:
+                why = 'known-negative-zero-member-of-value-set'
+            res.fail(f'{name}/not-identity/{why}', dict(base, args=list(args)), expected=shown(o0), got=shown(o1))
+    finally:
+        unload(mod)
+
+
+def run_constset(res, tier, seed, idx):
+    rng = random.Random(h64(seed, 'C10', 'constset', idx))
+    targets = constset_targets()
+    shapes = sorted(G.CONSTSETS)
+    for _ in range(24 if tier == 'quick' else 60):
+        b = rng.choice(targets)
+        b_spec = (b[0], b[1], dict(b[2], rm=rng.choice(MODES)))
+        constset_case(res, rng.choice(shapes), rng.choice(('round', 'round', 'cast')), rng.choice(('er', 'er', 'ir')), b_spec,
+                      ('none', 'idx', 'cursor')[rng.randrange(3)])
+
+
 def _in_format_infer(e):
     tb = e.__traceback__
     while tb is not None:
@@ -1040,6 +1124,9 @@ def run_shard(shard):
                 res.skip('constructor rejected')
                 continue
             run_context(res, spec, tier, seed)
+    elif shard[0] == 'constset':
+        _, tier, seed, idx = shard
+        run_constset(res, tier, seed, idx)
     else:
         _, tier, seed, idx = shard
         run_arith(res, tier, seed, idx)
@@ -1073,6 +1160,9 @@ def replay(case):
         b_spec = G.dec_spec(case['B'])
         only = tuple(G.dec_operand(s) for s in case['operands']) if case.get('operands') else None
         arith_case(res, case['op'], case['rewrite'], a_specs, b_spec, case.get('where', 'none'), random.Random(0), cap=40, only=only)
+        return [f for fl in res.failures.values() for f in fl]
+    if case.get('group') == 'constset':
+        constset_case(res, case['shape'], case['op'], case['rewrite'], G.dec_spec(case['B']), case.get('where', 'none'))
         return [f for fl in res.failures.values() for f in fl]
     spec = G.dec_spec(case['spec'])
     ctx, m = F.build(spec)
